@@ -6,7 +6,8 @@ Reads the tables and literals of memc-rs *from the source as it is now* and writ
 lean/MemcVerif/Generated/Tables.lean; lean/MemcVerif/Proofs/TablesTie.lean proves (kernel evaluation) that the hand-written
 model uses exactly these values. Extracted: the `Command` enum (opcodes), the dispatch of `parse_request` (which opcodes go
 to which per-opcode parser, which are 'not supported', which are rejected), `Magic`, the `CacheError` codes and their
-`to_static_string` texts, the literals of `request_valid` (extras, key length), `OpCodeMax`, the crate version.
+`to_static_string` texts, the literals of `request_valid` (extras, key length), `OpCodeMax`, the crate version, the scratch-buffer
+size of `skip_bytes`, the operators of the codec's size tests, the rules of `MemcStore::add_delta`.
 
 A section the extractor cannot recognise (the source was restructured) becomes `none`: the corresponding theorem is then
 vacuously true and the evidence says "tie not established for <section>" — a restructuring is not a violation. A section
@@ -153,6 +154,22 @@ def size_tests():
     return [0 if o == ">" else 1 if o == ">=" else 2 for o in ops]
 
 
+def delta_rules():
+    """`MemcStore::add_delta`: (the expiration value that forbids creation, 1 if it is compared with `!=` in the creating
+    branch; 1 if incr is `wrapping_add`; 1 if decr is 'delta > value => 0, else value - delta')"""
+    text = strip_comments(src("src/memcache/store.rs"))
+    a = text.index("fn add_delta")
+    body = text[a:a + 3500]
+    m = re.search(r"if\s+header\.get_expiration\(\)\s*(!=|==)\s*(0[xX][0-9a-fA-F_]+|\d+)\s*\{", body)
+    if not m:
+        return None
+    incr = re.search(r"if\s+increment\s*\{\s*value\s*=\s*value\.(\w+)\(delta\.delta\)\s*;", body)
+    decr = re.search(r"else\s+if\s+delta\.delta\s*>\s*value\s*\{\s*value\s*=\s*0\s*;\s*\}\s*else\s*\{\s*value\s*-=\s*delta\.delta\s*;", body)
+    if not incr:
+        return None
+    return (num(m.group(2)), 1 if m.group(1) == "!=" else 0, 1 if incr.group(1) == "wrapping_add" else 0, 1 if decr else 0)
+
+
 def lean_opt(v, f):
     return "none" if v is None else "some " + f(v)
 
@@ -169,6 +186,7 @@ o = section("opcode_max", opcode_max)
 v = section("version", version)
 sb = section("skip_buf", skip_buf)
 szt = section("size_tests", size_tests)
+dr = section("delta_rules", delta_rules)
 
 out = f'''/-!
 GENERATED by tools/gentables.py from the memc-rs source on every run of a check — do not edit.
@@ -203,6 +221,10 @@ def skipBuf : Option Nat := {lean_opt(sb, str)}
 
 /-- every comparison `self.header.body_length OP self.item_size_limit` of the codec: 0 = `>`, 1 = `>=`, 2 = another operator -/
 def sizeTests : Option (List Nat) := {lean_opt(szt, lst)}
+
+/-- `MemcStore::add_delta`: (expiration value that forbids creation, 1 = it is tested with `!=` before creating, 1 = incr is
+    `wrapping_add`, 1 = decr is 'delta > value ⇒ 0, else value − delta') -/
+def deltaRules : Option (Nat × Nat × Nat × Nat) := {lean_opt(dr, lambda t: "(" + ", ".join(str(x) for x in t) + ")")}
 
 end Memc.Gen
 '''
